@@ -7,6 +7,6 @@ require (
 	github.com/rulego/streamsql v0.0.0
 )
 
-require github.com/expr-lang/expr v1.17.8 // indirect
+require github.com/expr-lang/expr v1.17.8
 
 replace github.com/rulego/streamsql => /repo
